@@ -882,7 +882,21 @@ func (u *Unit) evalCall(st *State, env *SpecEnv, e *Spec) (Val, error) {
 			return Val{}, fmt.Errorf("addr(localVariable)")
 		}
 		if env.fr != nil {
-			if a := u.findLocal(env.fr, e.Args[0].Name); a != nil && a.Heap {
+			a := u.findLocal(env.fr, e.Args[0].Name)
+			if a == nil || !a.Heap {
+				// shadowed name: the first escaping variable of that name (a named result, typically)
+				fra := u.frameOf(st, env.fr)
+				for _, b := range env.fr.fn.Blocks {
+					for _, in := range b.Instrs {
+						if x, ok := in.(*ssa.Alloc); ok && x.Comment == e.Args[0].Name && x.Heap {
+							if _, live := fra.regs[x]; live && (a == nil || !a.Heap || x.Pos() < a.Pos()) {
+								a = x
+							}
+						}
+					}
+				}
+			}
+			if a != nil && a.Heap {
 				if pv, ok := u.frameOf(st, env.fr).regs[a]; ok {
 					return pv, nil
 				}
@@ -940,14 +954,7 @@ func (u *Unit) evalCall(st *State, env *SpecEnv, e *Spec) (Val, error) {
 			if fvar.Name() == vn {
 				pv := Val{T: fvar.Type(), Terms: []Term{fmt.Sprintf("(capv %s %d)", f.Terms[0], j)}}
 				// a closure that exists in this state captured cells that were allocated before it
-				fact := fmt.Sprintf("(=> (= (fnid %s) %d) (and (< 0 %s) (<= %s %s)))", f.Terms[0], u.fnID(target), pv.Terms[0], pv.Terms[0], st.alloc)
-				if strings.Contains(fact, "qi_") {
-					if u.qSide != nil {
-						*u.qSide = append(*u.qSide, fact)
-					}
-				} else if !strings.Contains(fact, "q_") {
-					u.sideFacts = append(u.sideFacts, fact)
-				}
+				u.noteSideFact(fmt.Sprintf("(=> (= (fnid %s) %d) (and (< 0 %s) (<= %s %s)))", f.Terms[0], u.fnID(target), pv.Terms[0], pv.Terms[0], st.alloc))
 				if e.Name == "captptr" {
 					return pv, nil
 				}
@@ -1037,6 +1044,11 @@ func (u *Unit) evalCall(st *State, env *SpecEnv, e *Spec) (Val, error) {
 			return Val{}, err
 		}
 		if pointerLike(t) {
+			if len(x.Terms) == 2 {
+				// closed heap: an interface value of this dynamic type that exists in this state
+				// holds a reference allocated in this state
+				u.noteSideFact(fmt.Sprintf("(=> (= %s %d) (and (<= 0 %s) (<= %s %s)))", x.Terms[0], u.eng.typeTag(t), x.Terms[1], x.Terms[1], st.alloc))
+			}
 			return Val{T: t, Terms: []Term{x.Terms[1]}}, nil
 		}
 		ls := u.eng.leavesOf(t)
@@ -1305,6 +1317,24 @@ func (u *Unit) harvest(st *State, env *SpecEnv, e *Spec, ante Term, depth int) {
 	}
 }
 
+// noteSideFact records a fact that is true of every state (closed heap): assumed on the path
+// after the current specification expression, or made part of the template when it mentions
+// the bound variable of a forall that is being harvested.
+func (u *Unit) noteSideFact(fact Term) {
+	if u.evalDepth == 0 {
+		return
+	}
+	if strings.Contains(fact, "qi_") {
+		if u.qSide != nil && !strings.Contains(fact, "q_") {
+			*u.qSide = append(*u.qSide, fact)
+		}
+		return
+	}
+	if !strings.Contains(fact, "q_") {
+		u.sideFacts = append(u.sideFacts, fact)
+	}
+}
+
 // instantiate adds the instances of all harvested quantified facts at index term iv.
 func (u *Unit) instantiate(st *State, iv Term) {
 	u.instantiateAt(st, iv, true)
@@ -1373,6 +1403,58 @@ func hasRangeForall(e *Spec) bool {
 	return false
 }
 
+func (u *Unit) unfoldOf(e *Spec) *SpecFunc {
+	if e == nil || e.Kind != SCall || e.A != nil {
+		return nil
+	}
+	if uf, ok := u.eng.cs.Unfolds[e.Name]; ok && len(uf.Params) == len(e.Args) {
+		return uf
+	}
+	return nil
+}
+
+// hasFoldable: a top-level conjunct (possibly under antecedents or range foralls) is a ghost
+// predicate with an unfold definition.
+func hasFoldable(u *Unit, e *Spec) bool {
+	for _, c := range conjuncts(e) {
+		if c == nil {
+			continue
+		}
+		if u.unfoldOf(c) != nil {
+			return true
+		}
+		if c.Kind == SBinary && c.Op == "==>" && hasFoldable(u, c.B) {
+			return true
+		}
+		if c.Kind == SQuant && c.Op == "forall" && c.B != nil && hasFoldable(u, c.A) {
+			return true
+		}
+	}
+	return false
+}
+
+// unfoldEnv binds the parameters of an unfold definition to the (typed) arguments of a call.
+func (u *Unit) unfoldEnv(st *State, env *SpecEnv, uf *SpecFunc, call *Spec) (*SpecEnv, error) {
+	ne := &SpecEnv{vars: map[string]Val{}, old: env.old, fn: env.fn, pkg: env.pkg, depth: env.depth + 1}
+	if p := u.eng.pkgByPath(uf.Pkg); p != nil {
+		ne.pkg = p
+	}
+	for i, p := range uf.Params {
+		v, err := u.eval(st, env, call.Args[i])
+		if err != nil {
+			return nil, err
+		}
+		if te, perr := ParseSpec(p.Type); perr == nil {
+			if rt, rerr := u.resolveType(ne, te); rerr == nil {
+				v.T = rt
+				v.Ptr = nil
+			}
+		}
+		ne.vars[p.Name] = v
+	}
+	return ne, nil
+}
+
 // obligeClause checks a contract clause. Universally quantified conjuncts (over an index
 // range) are skolemised by the generator: a fresh index constant is introduced on a side
 // state, the quantified facts known on the path are instantiated at it, and the body is
@@ -1386,11 +1468,12 @@ func (u *Unit) obligeClause(st *State, env *SpecEnv, e *Spec, kind, label string
 	if st.discover != nil || st.dead {
 		return nil
 	}
-	if !hasRangeForall(e) {
+	if !hasRangeForall(e) && !hasFoldable(u, e) {
 		u.oblige(st, kind, label, full, pos, human, props, where)
 		return nil
 	}
 	var plain []Term
+	folding := false
 	var check func(cs *State, cenv *SpecEnv, c *Spec, depth int) error
 	check = func(cs *State, cenv *SpecEnv, c *Spec, depth int) error {
 		for _, cj := range conjuncts(c) {
@@ -1408,7 +1491,28 @@ func (u *Unit) obligeClause(st *State, env *SpecEnv, e *Spec, kind, label string
 				if err := check(s2, cenv.with(cj.Name, Val{T: tInt, Terms: []Term{sk}}), cj.A, depth+1); err != nil {
 					return err
 				}
-			case cj.Kind == SBinary && cj.Op == "==>" && hasRangeForall(cj.B):
+			case cj.Kind == SCall && cj.A == nil && !folding && u.unfoldOf(cj) != nil:
+				// fold: a ghost predicate with an "unfold" definition may be concluded from its
+				// definition (the structures it describes are not modified after they are built:
+				// standing assumption). Proved as: assuming it does not hold, its body holds.
+				uf := u.unfoldOf(cj)
+				p, err := u.evalBool(cs, cenv, cj)
+				if err != nil {
+					return err
+				}
+				ne, err := u.unfoldEnv(cs, cenv, uf, cj)
+				if err != nil {
+					return err
+				}
+				s2 := cs.clone()
+				s2.assume(sNot(p))
+				folding = true
+				err = check(s2, ne, uf.Body, depth+1)
+				folding = false
+				if err != nil {
+					return err
+				}
+			case cj.Kind == SBinary && cj.Op == "==>" && (hasRangeForall(cj.B) || hasFoldable(u, cj.B)):
 				a, err := u.evalBool(cs, cenv, cj.A)
 				if err != nil {
 					return err
